@@ -455,3 +455,5 @@ scn.register(globals(), {"C07", "C02", "C03", "C09"}, ["fan_retry_inner_retry"],
 
 import s2_more as more
 more.register(globals(), {"C07", "C02", "C03", "C09"}, ["map_retry_batches"])
+
+more.register(globals(), {"C07", "C02", "C03", "C09"}, ["fan_catch_paths"])
